@@ -21,7 +21,7 @@
     then the one between two swaps, [Sift8.reorder_var_safe]).
 
     Only statements closed by [exact]; proofs live in [Proofs/SiftMin.v]. *)
-From DD Require Import SiftMin Total.
+From DD Require Import SiftMin Total SiftFull.
 Local Open Scope string_scope.
 
 (** ** Vocabulary (defined in [Proofs/Sift0.v], [Proofs/Sift1.v]) *)
@@ -82,12 +82,14 @@ Print Assumptions C07_visited_size.
 Theorem C07_reorder_var_min L s var al r s' :
   Gd L s → nozero s → levels_ok s al → is_Some (vars s !! var) →
   reorder_var var al s = (r, s') →
-  r = Err EOracle ∨ r = Err ERuntime ∨
+  r = Err EOracle ∨
+  (r = Err ERuntime ∧ is_Some (max_nodes s) ∧ Stp L s s' ∧
+   dom (vars s') = dom (vars s)) ∨
   ∃ k al' lv, r = Ok (k, al') ∧ vars s !! var = Some lv ∧
     Stp L s s' ∧ levels_ok s' al' ∧ vperm (mv lv k) s s' ∧ k < nvars s ∧
     (∀ p, p < nvars s → ∃ v, Visited L s lv p v ∧ len s' ≤ v) ∧
     (∀ p sp, p < nvars s → Stp L s sp → vperm (mv lv p) s sp → len s' ≤ len sp).
-Proof. exact (reorder_var_min L s var al r s'). Qed.
+Proof. exact (reorder_var_min_full L s var al r s'). Qed.
 Print Assumptions C07_reorder_var_min.
 
 (** the final state is itself the visited state of level [k] *)
